@@ -235,6 +235,7 @@ def run(prog, chk):
     rt, sk, pt, pa, pe = xfn(prog, X + "readToken"), xfn(prog, X + "skipSpace"), xfn(prog, X + "parseText"), xfn(prog, X + "parse", 2), xfn(prog, X + "parseElement")
     prolog_token_start(chk, "C16.g", pa)
     look_behind(prog, chk, "C16.i", ("Xml.cpp",))
+    references_after_escaping(prog, chk, "C16.j")
     chk.rule("C16.h", "MPT: every cursor / line field the tokenizer advances is set again in Private::parse before the first tokenizer call (a Parser is reused across documents)", floor=2)
     from .server_common import parser_entry_resets
     parser_entry_resets(prog, chk, "C16.h", "Xml::Private", "Xml.cpp")
@@ -491,3 +492,45 @@ def fin_const(t):
         return int(t)
     except Exception:
         return None
+
+
+def references_after_escaping(prog, chk, rid):
+    """The writer produces numeric character references (`&#10;`) for bytes the entity table does not cover.  escapeString turns every
+    `&` into `&amp;`: a value may be handed to it only while it holds raw text, and references are put in only afterwards."""
+    chk.rule(rid, "ORD (typestate raw -> escaped -> with references): a replace() that introduces `&...;` references is applied only to the "
+                  "result of escapeString, and no escapeString call takes a value after such a replace", floor=1)
+    n = 0
+    for f in [f for f in prog.functions.values() if f.file.endswith("Xml.cpp") and f.blocks]:
+        defs = q.local_defs(f)
+        for c in q.calls(f):
+            nd = f.nodes[c]
+            if nd["k"] != "CXXMemberCallExpr" or not (nd.get("callee") or "").endswith("String::replace"):
+                continue
+            args = q.call_args(f, c)
+            if len(args) < 2:
+                continue
+            lits = [f.nodes[x] for x in [f.strip(args[1])] + list(f.desc(args[1])) if f.nodes[x]["k"] == "StringLiteral"]
+            if not lits or not (lits[0].get("bytes") or [0])[0] == 38:      # replacement starts with '&'
+                continue
+            o = q.call_object(f, c)
+            on = f.nodes[f.strip(o)] if o is not None else None
+            if on is None or on["k"] != "DeclRefExpr" or on["ref"].get("dk") != "local":
+                continue
+            n += 1
+            vid, vn = on["ref"]["id"], on["ref"]["n"]
+            rd = q.reaching_def(f, vid, c, defs)
+            from_escape = rd is not None and any((f.nodes[x].get("callee") or "").endswith("::escapeString") for x in [f.strip(rd)] + list(f.desc(rd)))
+            later = [e for e in q.calls(f) if (f.nodes[e].get("callee") or "").endswith("::escapeString") and q.reaches(f, c, e) and
+                     any(f.nodes[x]["k"] == "DeclRefExpr" and f.nodes[x]["ref"].get("id") == vid for a in q.call_args(f, e) for x in [f.strip(a)] + list(f.desc(a)))]
+            if later:
+                chk.bad(rid, f, "reference-escaped-again:" + vn, f.where(later[0]),
+                        "`%s` received the reference %s and is passed to escapeString afterwards: its `&` is escaped once more, the parser "
+                        "reads the literal text of the reference instead of the byte" % (vn, bytes(lits[0].get("bytes") or []).decode("latin1")), evals=2)
+            elif not from_escape:
+                chk.bad(rid, f, "reference-into-unescaped-value:" + vn, f.where(c),
+                        "`%s` receives a character reference but does not come from escapeString: raw `&`, `<`, quotes in it stay unescaped "
+                        "(or are escaped after the reference was inserted)" % vn, evals=2)
+            else:
+                chk.ok(rid, f, "reference %s inserted into the escaped value `%s`" % (bytes(lits[0].get("bytes") or []).decode("latin1"), vn), f.where(c), "reaching definition is escapeString(..), no later escaping", evals=2)
+    if not n:
+        raise AnalysisBroken("no replace() introducing a character reference found in Xml.cpp")
